@@ -408,6 +408,162 @@ inline void caseRewrites(vh::Rng &r, bool thorough, int flavour) {
     freeAll(w);
 }
 
+
+// ------------------------------------------------------------------------------------------------
+// Stage dumps from inside HyperedgeImprover::execute() (guarded hook, tools/briefs/hook_c12.patch).
+// Compiled only when the library's header announces the hook; without it the scene stream simply
+// carries no h* lines.  Every hooked call (removeZeroLengthEdges(root, nullptr) per tree root,
+// moveJunctionAlongCommonEdge per call) yields a pair of states of the tree that contains the node;
+// a pair is emitted when the call changed something (and for every 8th call that did not).
+//   hop <2m> resync        the driver adopts state 2m without comparing (start of a new pair)
+//   hop <2m+1> rzle <node> - | move <junction>
+#ifdef ADAPTAGRAMS_VERIF_HYPERTREE_HOOK
+struct HookState {
+    std::map<HyperedgeTreeNode *, long> nid;
+    std::map<HyperedgeTreeEdge *, long> eid;
+    long next = 0;
+    long pairs = 0, calls = 0, lines = 0;
+    std::vector<std::string> before;      // lines of the state before, without the step index
+    std::string beforeHead;
+    long movedJunction = -1;
+    long nodeAtCall = -1;
+    long nextJ = 0, nextC = 0;
+};
+inline HookState &hookState() { static HookState h; return h; }
+
+struct HookDump { std::string head; std::vector<std::string> lines; };
+
+inline HookDump hookDump(HookState &h, HyperedgeImprover *imp, HyperedgeTreeNode *anchor, JunctionRef *movedJ,
+                         HyperedgeTreeNode *movedTo, Router *router) {
+    std::vector<HyperedgeTreeNode *> ns;
+    std::vector<HyperedgeTreeEdge *> es;
+    std::set<HyperedgeTreeNode *> seenN;
+    std::set<HyperedgeTreeEdge *> seenE;
+    std::vector<HyperedgeTreeNode *> stack(1, anchor);
+    seenN.insert(anchor);
+    while (!stack.empty()) {
+        HyperedgeTreeNode *n = stack.back(); stack.pop_back();
+        ns.push_back(n);
+        for (HyperedgeTreeEdge *e : n->edges) {
+            if (seenE.insert(e).second) es.push_back(e);
+            HyperedgeTreeNode *ends[2] = { e->ends.first, e->ends.second };
+            for (HyperedgeTreeNode *m : ends) if (m && seenN.insert(m).second) stack.push_back(m);
+        }
+    }
+    auto nId = [&](HyperedgeTreeNode *n) -> long {
+        if (!n) return -1;
+        auto it = h.nid.find(n);
+        if (it != h.nid.end()) return it->second;
+        h.nid[n] = h.next; return h.next++;
+    };
+    auto eId = [&](HyperedgeTreeEdge *e) -> long {
+        auto it = h.eid.find(e);
+        if (it != h.eid.end()) return it->second;
+        h.eid[e] = h.next; return h.next++;
+    };
+    // drop pointers that are no longer part of the tree (freed objects)
+    for (auto it = h.nid.begin(); it != h.nid.end();) { if (!seenN.count(it->first)) it = h.nid.erase(it); else ++it; }
+    for (auto it = h.eid.begin(); it != h.eid.end();) { if (!seenE.count(it->first)) it = h.eid.erase(it); else ++it; }
+    for (HyperedgeTreeNode *n : ns) nId(n);
+    for (HyperedgeTreeEdge *e : es) eId(e);
+    HookDump d;
+    std::ostringstream o;
+    std::set<JunctionRef *> carried;
+    std::set<long> fixedJ, fixedC;
+    for (HyperedgeTreeNode *n : ns) {
+        o.str("");
+        o << "hn @ " << nId(n) << " " << vh::hx(n->point.x) << " " << vh::hx(n->point.y) << " "
+          << opt(n->junction ? (long) n->junction->id() : -1) << " " << (n->finalVertex ? "1" : "-") << " "
+          << (int) n->isConnectorSource << " " << (int) n->isPinDummyEndpoint;
+        for (HyperedgeTreeEdge *e : n->edges) o << " " << eId(e);
+        d.lines.push_back(o.str());
+        if (n->junction) { carried.insert(n->junction); if (n->junction->positionFixed()) fixedJ.insert(n->junction->id()); }
+    }
+    for (HyperedgeTreeEdge *e : es) {
+        o.str("");
+        o << "he @ " << eId(e) << " " << opt(nId(e->ends.first)) << " " << opt(nId(e->ends.second)) << " "
+          << opt(e->conn ? (long) e->conn->id() : -1) << " " << (int) e->hasFixedRoute;
+        d.lines.push_back(o.str());
+        if (e->conn && e->conn->hasFixedRoute()) fixedC.insert(e->conn->id());
+    }
+    o.str(""); o << "himp @ roots";
+    for (JunctionRef *j : imp->*get(TRoots())) if (carried.count(j)) o << " " << j->id();
+    d.lines.push_back(o.str());
+    o.str(""); o << "himp @ jmap";
+    for (auto &p : imp->*get(TJunctions())) {
+        if (p.first == movedJ) continue;
+        if (seenN.count(p.second)) o << " " << p.first->id() << ":" << nId(p.second);
+    }
+    if (movedJ && movedTo) o << " " << movedJ->id() << ":" << nId(movedTo);
+    d.lines.push_back(o.str());
+    o.str(""); o << "himp @ newj"; for (JunctionRef *j : imp->*get(TNewJ())) o << " " << j->id(); d.lines.push_back(o.str());
+    o.str(""); o << "himp @ delj"; for (JunctionRef *j : imp->*get(TDelJ())) o << " " << j->id(); d.lines.push_back(o.str());
+    o.str(""); o << "himp @ newc"; for (ConnRef *c : imp->*get(TNewC())) o << " " << c->id(); d.lines.push_back(o.str());
+    o.str(""); o << "himp @ delc"; for (ConnRef *c : imp->*get(TDelC())) o << " " << c->id(); d.lines.push_back(o.str());
+    o.str(""); o << "himp @ fixedj"; for (long j : fixedJ) o << " " << j; d.lines.push_back(o.str());
+    o.str(""); o << "himp @ fixedc"; for (long c : fixedC) o << " " << c; d.lines.push_back(o.str());
+    o.str("");
+    o << "hst @ dfs " << nId(anchor) << " " << h.next << " " << h.nextJ << " " << h.nextC << " "
+      << (int) (imp->*get(TMajor()));
+    d.head = o.str();
+    (void) router;
+    return d;
+}
+
+inline void printAt(const std::string &line, long step) {
+    size_t at = line.find('@');
+    printf("%s%ld%s\n", line.substr(0, at).c_str(), step, line.substr(at + 1).c_str());
+}
+
+C12_ROB(TRouter, Router *, m_router)
+
+inline void hookCallback(HyperedgeImprover *imp, const char *stage, int phase, HyperedgeTreeNode *node,
+                         HyperedgeTreeNode *result) {
+    HookState &h = hookState();
+    Router *router = imp->*get(TRouter());
+    bool isMove = stage[0] == 'm';
+    if (phase == 0) {
+        h.nid.clear(); h.eid.clear(); h.next = 0;
+        // ids the router will give to the next new junction and connector (JunctionRef first, then ConnRef)
+        h.nextJ = router->newObjectId(); h.nextC = h.nextJ + 1;
+        JunctionRef *j = node->junction;
+        HookDump d = hookDump(h, imp, node, isMove ? j : nullptr, isMove ? node : nullptr, router);
+        h.before = d.lines; h.beforeHead = d.head;
+        h.movedJunction = j ? (long) j->id() : -1;
+        h.nodeAtCall = h.nid[node];
+        return;
+    }
+    ++h.calls;
+    HyperedgeTreeNode *anchor = result ? result : node;
+    JunctionRef *movedJ = nullptr;
+    if (isMove) {
+        // the junction this call was made for: the one `node` carried at phase 0
+        for (auto &p : imp->*get(TJunctions())) if ((long) p.first->id() == h.movedJunction) movedJ = p.first;
+    }
+    h.nextJ = router->newObjectId(); h.nextC = h.nextJ + 1;
+    HookDump d = hookDump(h, imp, anchor, movedJ, isMove ? anchor : nullptr, router);
+    bool changed = (d.lines != h.before);
+    if (!changed && (h.calls % 8) != 0) return;
+    if (h.pairs >= 40 || h.lines > 12000) return;       // bound the stream per case
+    long s0 = 2 * h.pairs, s1 = s0 + 1;
+    if (h.pairs > 0) printf("hop %ld resync\n", s0);
+    printAt(h.beforeHead, s0);
+    for (const std::string &l : h.before) printAt(l, s0);
+    if (isMove) printf("hop %ld move %ld\n", s1, h.movedJunction);
+    else printf("hop %ld rzle %ld -\n", s1, h.nodeAtCall);
+    if (isMove) printf("hret %ld %s x\n", s1, opt(result ? h.nid[result] : -1).c_str());
+    printAt(d.head, s1);
+    for (const std::string &l : d.lines) printAt(l, s1);
+    fflush(stdout);
+    h.lines += (long) (h.before.size() + d.lines.size());
+    ++h.pairs;
+}
+
+inline void installHook() { hyperedgeTreeVerifHook = &hookCallback; }
+#else
+inline void installHook() {}
+#endif
+
 inline const char *opsTag(int klass) {
     static const char *T[] = { "ops-prim", "ops-rzle-minor", "ops-rzle-major", "ops-move-minor", "ops-move-major",
                                "ops-odd-minor", "ops-odd-major" };
